@@ -124,6 +124,9 @@ func (i *interpreter) unop(instr *ssa.UnOp, x value) value {
 	case token.ARROW:
 		i.abort(abortUnsupported, "channel receive")
 	case token.MUL:
+		if sp, ok := x.(*symElemPtr); ok {
+			return i.selectScalar(sp.elems, sp.idx)
+		}
 		p := x.(*value)
 		if p == nil {
 			panic(runtimeErr("invalid memory address or nil pointer dereference"))
@@ -365,9 +368,45 @@ func (i *interpreter) selectScalar(elems []value, idx *Sym) value {
 	w := idx.T.Sort.Width()
 	n := len(elems)
 	kind := kindOfValue(elems[0])
-	r := i.term(elems[n-1])
-	for k := n - 2; k >= 0; k-- {
-		r = s.Ite(s.Eq(idx.T, s.BV(w, uint64(k))), i.term(elems[k]), r)
+	terms := make([]*Term, n)
+	for k := range elems {
+		terms[k] = i.term(elems[k])
+	}
+	// compress runs of identical terms into range tests
+	type run struct {
+		lo, hi int
+		t      *Term
+	}
+	var runs []run
+	for k := 0; k < n; k++ {
+		if len(runs) > 0 && runs[len(runs)-1].t == terms[k] {
+			runs[len(runs)-1].hi = k
+		} else {
+			runs = append(runs, run{k, k, terms[k]})
+		}
+	}
+	// pick the most frequent term as the default to shorten the chain
+	cnt := map[*Term]int{}
+	best := runs[0].t
+	for _, r := range runs {
+		cnt[r.t] += r.hi - r.lo + 1
+		if cnt[r.t] > cnt[best] {
+			best = r.t
+		}
+	}
+	r := best
+	for k := len(runs) - 1; k >= 0; k-- {
+		ru := runs[k]
+		if ru.t == best {
+			continue
+		}
+		var c *Term
+		if ru.lo == ru.hi {
+			c = s.Eq(idx.T, s.BV(w, uint64(ru.lo)))
+		} else {
+			c = s.And(s.ULe(s.BV(w, uint64(ru.lo)), idx.T), s.ULe(idx.T, s.BV(w, uint64(ru.hi))))
+		}
+		r = s.Ite(c, ru.t, r)
 	}
 	return i.val(r, kind)
 }
